@@ -22,6 +22,13 @@ var localRe = regexp.MustCompile(`local: (\d+)\)`)
 // harness's custom miner: blocks that the stock worker never assembles (e.g. a Qi transaction
 // spending an output created earlier in the same block) but that block processing accepts.
 func (n *Net) Refinalize(full *types.WorkObject, txs []*types.Transaction) (*types.WorkObject, error) {
+	return n.RefinalizeBody(full, txs, full.Uncles())
+}
+
+// RefinalizeBody is Refinalize with an edited uncle (workshare) list as well: the uncle hash and
+// the uncled entropy are recomputed for the new list and the share rewards follow from executing
+// the body.
+func (n *Net) RefinalizeBody(full *types.WorkObject, txs []*types.Transaction, uncles []*types.WorkObjectHeader) (*types.WorkObject, error) {
 	zone := n.Nodes[Zone]
 	parent := zone.Core.GetBlockByHash(full.ParentHash(Zone))
 	if parent == nil {
@@ -29,6 +36,9 @@ func (n *Net) Refinalize(full *types.WorkObject, txs []*types.Transaction) (*typ
 	}
 	blk := types.CopyWorkObject(full)
 	blk.Body().SetTransactions(txs)
+	blk.Body().SetUncles(uncles)
+	blk.Header().SetUncleHash(types.CalcUncleHash(uncles))
+	blk.Header().SetUncledEntropy(zone.Core.Slice().HeaderChain().UncledLogEntropy(blk))
 	blk.Header().SetTxHash(types.DeriveSha(types.Transactions(txs), trie.NewStackTrie(nil)))
 	for attempt := 0; attempt < 6; attempt++ {
 		blk.WorkObjectHeader().SetHeaderHash(blk.Header().Hash())
@@ -76,11 +86,24 @@ func (n *Net) Refinalize(full *types.WorkObject, txs []*types.Transaction) (*typ
 // MineCustom builds the worker's pending block on heads, lets edit change the transaction list,
 // re-finalises, seals and submits it.
 func (n *Net) MineCustom(heads Heads, o MineOpts, edit func(txs []*types.Transaction) []*types.Transaction) (Heads, *Block, error) {
+	return n.MineCustomBody(heads, o, edit, nil)
+}
+
+// MineCustomBody is MineCustom with an optional edit of the uncle (workshare) list.
+func (n *Net) MineCustomBody(heads Heads, o MineOpts, edit func(txs []*types.Transaction) []*types.Transaction, editUncles func(us []*types.WorkObjectHeader) []*types.WorkObjectHeader) (Heads, *Block, error) {
 	full, err := n.PendingFull(heads, o)
 	if err != nil {
 		return heads, nil, err
 	}
-	edited, err := n.Refinalize(full, edit(append([]*types.Transaction{}, full.Transactions()...)))
+	txs := append([]*types.Transaction{}, full.Transactions()...)
+	if edit != nil {
+		txs = edit(txs)
+	}
+	uncles := append([]*types.WorkObjectHeader{}, full.Uncles()...)
+	if editUncles != nil {
+		uncles = editUncles(uncles)
+	}
+	edited, err := n.RefinalizeBody(full, txs, uncles)
 	if err != nil {
 		return heads, nil, err
 	}
